@@ -27,7 +27,7 @@ func init() {
 type edgeKey struct{ from, to *ssa.BasicBlock }
 
 func runAlias(c *core.Ctx) []core.Obligation {
-	b := newOb(c, "R-ALIAS", "C10", "C14")
+	b := newOb(c, "R-ALIAS", "C10", "C14", "C11")
 	jp := c.Pkg("json")
 	if jp == nil {
 		b.und("package", "-", "json not loaded")
